@@ -158,6 +158,19 @@ def project(doc, messages: bool = False):
     return out, par
 
 
+def parent_mismatches(doc) -> int:
+    """number of nodes whose .parent is not the node whose children list holds them"""
+    bad = 0
+    stack = [doc]
+    while stack:
+        n = stack.pop()
+        for ch in getattr(n, "children", []):
+            if getattr(ch, "parent", n) is not n:
+                bad += 1
+            stack.append(ch)
+    return bad
+
+
 def dup_nodes(doc) -> int:
     """number of node objects that occur more than once in the tree (incl. system messages)"""
     seen, dups = set(), 0
